@@ -22,7 +22,7 @@ from pyvc.values import SNum
 
 from .common import F, G, H, MISS, S, U, Case, Env, basic_shape_clauses, case_of, is_flag, pval
 
-PERIODS = (None, "week", "weekofyear", "month", "dayofyear")
+PERIODS = (None, "week", "weekofyear", "month", "dayofyear", "quarter")
 
 _FOLD = z3.Function("clim_fold", z3.IntSort(), z3.IntSort(), z3.IntSort())
 
@@ -302,6 +302,8 @@ class ClimatologyCheck(Case):
                 m["tlo"], m["thi"] = (1, 9) if lo < hi else (25, 53)
             elif p == "month":
                 m["tlo"], m["thi"] = (1, 2) if lo < hi else (6, 12)
+            elif p == "quarter":
+                m["tlo"], m["thi"] = (1, 1) if lo < hi else (2, 4)
             else:
                 m["tlo"], m["thi"] = (1, 60) if lo < hi else (167, 366)
             if hz:
@@ -431,7 +433,7 @@ def _num(x):
 
 def add_cases():
     cs = []
-    for p in (None, "week", "month", "dayofyear"):
+    for p in (None, "week", "month", "dayofyear", "quarter"):
         for z in (False, True):
             for f in (False, True):
                 cs.append(ClimAdd(period=p, hasz=z, hasf=f, via="add"))
